@@ -3,5 +3,5 @@ CONSTANTS
   Vals = {1}
 INIT Init
 NEXT Next
-INVARIANTS Sound Complete BaseRoundTrip
+INVARIANTS Sound Complete BaseRoundTrip Rejects PrefixLookupAccepts
 CHECK_DEADLOCK FALSE
